@@ -68,6 +68,8 @@ def float_params(topo, env):
 def numpy_float(topo, env, style="array", flags=None, order=None, int_states=False):
     """real NumPy engine on float arrays.  Returns ((el, state) -> list[float], None) or (None, exc)."""
     P = float_params(topo, env)
+    if int_states:
+        P = {k: (int(round(v)) if k.startswith("lam_") else v) for k, v in P.items()}  # lanes are ints in normal use
     X = runs.float_inputs(topo, env, style, int_states)
     with warnings.catch_warnings():
         warnings.simplefilter("ignore")
